@@ -17,7 +17,7 @@ Lemma index0_keys c data ix :
 Proof.
   intros Hbits Hrec Hpar [Hne Hs Hkt Hlast Hn32] Hn64 Hb.
   destruct (index0_layout c data ix Hbits Hrec Hpar Hne Hs Hkt Hlast Hn32 Hn64 Hb (sentinel c)
-              (level_float_ok_trivial _ _ _ _)) as (css & g & new & T & Eix & Hcat & HL & HT & _ & Hlk & Hnn).
+              (level_float_ok_cap_trivial _ _ _ _)) as (css & g & new & T & Eix & Hcat & HL & HT & _ & Hlk & Hnn).
   pose proof (nowrap_data c data Hbits Hne Hs Hkt Hlast) as Hw.
   pose proof (wrap_last c data Hbits Hne Hs Hkt Hlast) as Hwl.
   destruct (level_keys_facts c (c_eps c) _ data (last_z data) css g new T Hne Hs Hw Hcat HL HT Hwl ltac:(lia))
@@ -98,7 +98,7 @@ Record bucket_ok (bc : bcfg) : Prop := mkBucketOk {
 }.
 
 Lemma inner_idx_ok bc : bucket_ok bc -> idx_ok (inner bc).
-Proof. intros [H1 H2 H3 H4 H5 H6]. constructor; cbn; try lia; left; reflexivity. Qed.
+Proof. intros [H1 H2 H3 H4 H5 H6]. constructor; cbn; lia. Qed.
 
 Lemma bucketing_build_inv bc data b : data <> [] -> bucketing_build bc data = Ok b ->
   exists ix t, build (inner bc) data = Ok ix /\
@@ -179,14 +179,14 @@ Proof.
 Qed.
 
 Theorem bucketing_search_contract bc data b q :
-  bucket_ok bc -> float_ok_all (inner bc) -> data_ok (inner bc) data -> bucketing_build bc data = Ok b ->
+  bucket_ok bc -> float_ok_valid (inner bc) -> data_ok (inner bc) data -> bucketing_build bc data = Ok b ->
   zlen (bk_segments b) < 2 ^ 32 ->
   exists a, bucketing_search bc b q = Ok a /\
     0 <= a_lo a <= lb data q /\ lb data q <= a_hi a <= zlen data /\
     (In q data -> lb data q < a_hi a) /\ a_hi a - a_lo a <= 2 * c_eps (b_cfg bc) + 2.
 Proof.
   intros Hbo Hf Hd Hb Hs32.
-  destruct (bucketing_search_contract_at bc data b q Hbo Hd Hb Hs32 (fun _ => Hf _ _)) as (a & Es & H).
+  destruct (bucketing_search_contract_at bc data b q Hbo Hd Hb Hs32 (fun _ => Hf _ _ Hd)) as (a & Es & H).
   exists a. split; [exact Es|]. tauto.
 Qed.
 
@@ -207,7 +207,7 @@ Theorem bucketing_contract_total bc data :
   bucket_ok bc -> c_par (b_cfg bc) <= 20 -> c_eps (b_cfg bc) <= 2 ^ 31 ->
   (pow_two (b_tls bc) = true -> 0 <= top_shift bc < kbits (c_kt (b_cfg bc))) ->
   (b_tlbs bc = 0 \/ 32 <= b_tlbs bc) ->
-  float_ok_all (inner bc) -> data_ok (inner bc) data -> zlen data <= 2 ^ 30 ->
+  float_ok_valid (inner bc) -> data_ok (inner bc) data -> zlen data <= 2 ^ 30 ->
   exists b, bucketing_build bc data = Ok b /\
     forall q, exists a, bucketing_search bc b q = Ok a /\
       0 <= a_lo a <= lb data q /\ lb data q <= a_hi a <= zlen data /\
